@@ -12,6 +12,7 @@ import (
 	"math"
 	"os"
 	"runtime"
+	"runtime/debug"
 	"strconv"
 	"strings"
 	"sync"
@@ -208,6 +209,11 @@ func vParam(name string, def int) int {
 }
 
 func vIdealEq(a, b []byte) bool { return bytes.Equal(a, b) }
+
+// vSingleP natively: one P, so that a sync.Pool hands a buffer that was just
+// put back to the next Get (the engine models the pool as a LIFO free list).
+// The garbage collector empties pools, so it is switched off for the replay.
+func vSingleP() { runtime.GOMAXPROCS(1); debug.SetGCPercent(-1) }
 
 // vNonceReuse natively: not observable (the harnesses pair it with an
 // observable condition).
